@@ -27,35 +27,40 @@ EnqClause(e) ==
   ELSE IF e.res THEN "C12.NoDup"
   ELSE "C12.EnqueueResult"
 
+\* frames are private copies in both directions: what dequeue() handed out earlier never changes afterwards, two dequeues
+\* never hand out one object, and the queue never stores (or hands back) the object the caller passed in; the harness
+\* re-inspects every object it ever passed in or got back after each call and reports the first discrepancy in e.alias
+V(e, x) == IF "alias" \in DOMAIN e /\ e.alias # "" THEN <<"C12.Snapshot", e.alias>> ELSE x
+
 Step ==
   /\ verdict[1] = "ok" /\ l <= Len(Tr) /\ l' = l + 1 /\ tid' = tid
   /\ LET e == Tr[l] IN
      \/ /\ e.op = "enq" /\ Enq(Fr(e.f), e.how)
-        /\ verdict' = IF EnqClause(e) # "ok" THEN <<EnqClause(e), "enqueue result">>
+        /\ verdict' = V(e, IF EnqClause(e) # "ok" THEN <<EnqClause(e), "enqueue result">>
                       ELSE IF e.len # Len(q') THEN <<"C12.Fifo", "length after enqueue">>
                       ELSE IF e.max # max THEN <<"C12.MovePreserves", "max_queue_size changed">>
-                      ELSE <<"ok", "">>
+                      ELSE <<"ok", "">>)
      \/ /\ e.op = "enqfrag" /\ frag /\ EnqFrag(Fr(e.f))
-        /\ verdict' = IF ~e.first THEN <<"C12.EnqueueResult", "first fragment refused">>
+        /\ verdict' = V(e, IF ~e.first THEN <<"C12.EnqueueResult", "first fragment refused">>
                       ELSE IF EnqClause(e) # "ok" THEN <<EnqClause(e), "enqueue result of the completing fragment">>
                       ELSE IF e.len # Len(q') THEN <<"C12.Fifo", "length after re-assembly">>
                       ELSE IF e.max # max THEN <<"C12.MovePreserves", "max_queue_size changed">>
-                      ELSE <<"ok", "">>
+                      ELSE <<"ok", "">>)
      \/ /\ e.op = "enqfrag" /\ ~frag /\ UNCHANGED vars /\ verdict' = <<"harness", "enqfrag recorded while fragmentation is off">>
      \/ /\ e.op = "deq" /\ Deq
-        /\ verdict' = IF FrontClause(e, q) # "ok" THEN <<FrontClause(e, q), "dequeue result">>
+        /\ verdict' = V(e, IF FrontClause(e, q) # "ok" THEN <<FrontClause(e, q), "dequeue result">>
                       ELSE IF e.len # Len(q') THEN <<"C12.Once", "length after dequeue">>
-                      ELSE <<"ok", "">>
+                      ELSE <<"ok", "">>)
      \/ /\ e.op = "peek" /\ Peek
-        /\ verdict' = IF FrontClause(e, q) # "ok" THEN <<FrontClause(e, q), "peek result">>
+        /\ verdict' = V(e, IF FrontClause(e, q) # "ok" THEN <<FrontClause(e, q), "peek result">>
                       ELSE IF e.len # Len(q) THEN <<"C12.Once", "peek changed the length">>
-                      ELSE <<"ok", "">>
+                      ELSE <<"ok", "">>)
      \/ /\ e.op = "setmax" /\ SetMax(e.n)
-        /\ verdict' = IF e.len # Len(q) THEN <<"C12.Fifo", "length after max_queue_size change">>
-                      ELSE IF e.max # e.n THEN <<"C12.MovePreserves", "max_queue_size not stored">> ELSE <<"ok", "">>
+        /\ verdict' = V(e, IF e.len # Len(q) THEN <<"C12.Fifo", "length after max_queue_size change">>
+                      ELSE IF e.max # e.n THEN <<"C12.MovePreserves", "max_queue_size not stored">> ELSE <<"ok", "">>)
      \/ /\ e.op = "toggle" /\ Toggle
-        /\ verdict' = IF e.len # Len(q) \/ e.max # max THEN <<"C12.MovePreserves", "fragmentation toggle">>
-                      ELSE <<"ok", "">>
+        /\ verdict' = V(e, IF e.len # Len(q) \/ e.max # max THEN <<"C12.MovePreserves", "fragmentation toggle">>
+                      ELSE <<"ok", "">>)
 
 TSpec == TInit /\ [][Step]_tvars
 Report == (verdict[1] # "ok" \/ l > Len(Tr)) => PrintT("VERDICT " \o ToString(<<tid, l - 1, verdict[1], verdict[2]>>))
